@@ -38,6 +38,54 @@ impl<T: El> Interp<T> {
         let res = on_iter!(&mut self.slots[i].kind, it => scoped(|| it.next_back()), filter => return None);
         yield_opt(res, r)
       }
+      "nth" | "nth_back" => {
+        // the provided methods of Iterator / DoubleEndedIterator (or whatever overrides them): the skipped elements
+        // are destroyed inside the operation
+        argc(3)?;
+        let k: usize = t[2].parse().ok()?;
+        if k > 64 {
+          return None;
+        }
+        let i = self.find(r)?;
+        let res = if op == "nth" {
+          on_iter!(&mut self.slots[i].kind, it => scoped(|| it.nth(k)), filter => scoped(|| it.nth(k)))
+        } else {
+          on_iter!(&mut self.slots[i].kind, it => scoped(|| it.nth_back(k)), filter => return None)
+        };
+        yield_opt(res, r)
+      }
+      "count" => {
+        // consumes the iterator: every remaining element is destroyed inside the operation, then the iterator
+        argc(2)?;
+        let i = self.find(r)?;
+        match self.slots[i].kind {
+          Kind::Drain { .. } | Kind::Splice { .. } | Kind::Filter { .. } | Kind::Into { .. } => {}
+          _ => return None,
+        }
+        let res = match core::mem::replace(&mut self.slots[i].kind, Kind::Gone) {
+          Kind::Drain { it, src } => {
+            self.set_borrowed(src, false);
+            scoped(move || it.count())
+          }
+          Kind::Splice { it, src } => {
+            self.set_borrowed(src, false);
+            scoped(move || it.count())
+          }
+          Kind::Filter { it, src } => {
+            self.set_borrowed(src, false);
+            scoped(move || it.count())
+          }
+          Kind::Into { it } => scoped(move || it.count()),
+          _ => unreachable!(),
+        };
+        match res {
+          Some(n) => {
+            tl!("= {}", n);
+            Out::Nums(vec![n as u64])
+          }
+          None => done(None),
+        }
+      }
       "size_hint" => {
         argc(2)?;
         let i = self.find(r)?;
